@@ -1,13 +1,8 @@
 /-
 C12 — the seed-chain validators of ModelVal2.lean (size_t arithmetic modulo 2^S) decide the chain rule of the
 headers over the integers (`Spec.chain`).  No Mathlib.
-
-NOTE (reported to the owner of the models): `chainOkM.go _ [] = true`, whereas the C loop that runs to
-`i = count` still executes `if (x[count-1] > 32) return ERR_BAD_SEED`.  The equivalences below therefore carry
-the hypothesis `xs.getLastD 0 ≤ 32` (the last array entry is ≤ 32 — true for every array whose chain ends
-before the last slot, in particular for all arrays accepted with the standard (l, r) tables).  Counterexample
-without it: `chainOkM 64 16 [100, 60] = true`, `Spec.chain 16 [100, 60]` is false, and C rejects.
-The proofs close the `[]` case with the hypothesis in a way that also works for `go prev [] = decide (prev ≤ 32)`.
+(History: an earlier version of the models had `go _ [] = true` and accepted [100, 60], which the C loop rejects
+by `if (x[count-1] > 32) return ERR_BAD_SEED`; the models now have `go prev [] = decide (prev ≤ 32)`.)
 -/
 import Bee2V.C12.ModelVal2
 namespace Bee2V.C12
@@ -132,16 +127,15 @@ theorem step_iff (M m prev x : Nat) (hprev : prev < (M - 1) / 5) (hm : m ≤ 4 *
 
 /-- the loop of the validators from an entry `prev` on -/
 theorem go_iff (M m : Nat) (hm : m ≤ 64) : ∀ (rest : List Nat) (prev : Nat),
-    prev < (M - 1) / 5 → m ≤ 4 * prev → rest.getLastD prev ≤ 32 →
+    prev < (M - 1) / 5 → m ≤ 4 * prev →
     (chainOkM.go m M prev rest = true ↔ Spec.chain m (prev :: rest)) := by
   intro rest
   induction rest with
   | nil =>
-    intro prev _ _ hlast
-    have hlast' : prev ≤ 32 := by rwa [List.getLastD_nil] at hlast
-    simp [chainOkM.go, chain_single, hlast']
+    intro prev _ _
+    simp [chainOkM.go, chain_single]
   | cons x rest ih =>
-    intro prev hprev hmp hlast
+    intro prev hprev hmp
     rw [chain_cons_cons]
     unfold chainOkM.go
     by_cases hx : x > 16
@@ -161,7 +155,7 @@ theorem go_iff (M m : Nat) (hm : m ≤ 64) : ∀ (rest : List Nat) (prev : Nat),
       · rw [if_neg hc]
         have hs := hstep.1 hc
         have hxlt : x < (M - 1) / 5 := by omega
-        rw [ih x hxlt (by omega) (by rwa [List.getLastD_cons] at hlast)]
+        rw [ih x hxlt (by have := hm; omega)]
         constructor
         · intro h; exact Or.inr ⟨hx, hs.1, hs.2, h⟩
         · rintro (h | ⟨_, _, _, h⟩)
@@ -189,10 +183,11 @@ open SeedAux
 
 /-- the chain validators (stb99DiVal / stb99RiVal / pfokLiVal after the checks of the first entry) decide the
     chain rule of the headers.  Hypotheses: the first entry is below SIZE_MAX/5 (stb99DiVal checks SIZE_MAX/8;
-    r, l − 1 are small), the subtraction `4 x₀ − margin` does not wrap (the callers guarantee x₀ > 16), and the
-    last array entry is ≤ 32 (see the note at the head of the file). -/
+    r, l − 1 are small) and the subtraction `4 x₀ − margin` does not wrap (the callers guarantee x₀ > 16 ≥ margin).
+    Every later accepted entry is smaller than its predecessor, so the C guard `x[i] >= SIZE_MAX / 5` rejects
+    nothing that the integer rule accepts. -/
 theorem chainOkM_iff (S margin : Nat) (xs : List Nat) (hm : margin ≤ 64)
-    (h0 : xs.headD 0 < (2 ^ S - 1) / 5) (hm0 : margin ≤ 4 * xs.headD 0) (hlast : xs.getLastD 0 ≤ 32) :
+    (h0 : xs.headD 0 < (2 ^ S - 1) / 5) (hm0 : margin ≤ 4 * xs.headD 0) :
     chainOkM S margin xs = true ↔ Spec.chain margin xs := by
   cases xs with
   | nil => simp [chainOkM, chain_nil]
@@ -203,7 +198,7 @@ theorem chainOkM_iff (S margin : Nat) (xs : List Nat) (hm : margin ≤ 64)
     | nil => simp [chain_single]
     | cons x rest =>
       simp only [List.isEmpty_cons, Bool.false_eq_true, if_false]
-      exact go_iff (2 ^ S) margin hm (x :: rest) x0 h0 hm0 (by rwa [List.getLastD_cons] at hlast)
+      exact go_iff (2 ^ S) margin hm (x :: rest) x0 h0 hm0
 
 /-- every entry of an accepted chain after the first is smaller than its predecessor (so the C test
     `x[i] >= SIZE_MAX / 5` rejects nothing the integer rule accepts) -/
@@ -239,8 +234,7 @@ end SeedAux
 theorem stb99SeedVal_iff (S : Nat) (lr : List (Nat × Nat)) (l : Nat) (zi di ri : List Nat)
     (hRi : stb99RiMargin ≤ 16)
     (hl : 32 < l) (hlS : 7 * l + 9 ≤ 2 ^ S)
-    (hr : ∀ p ∈ lr, 16 < p.2 ∧ p.2 < (2 ^ S - 1) / 5)
-    (hdl : di.getLastD 0 ≤ 32) (hrl : ri.getLastD 0 ≤ 32) :
+    (hr : ∀ p ∈ lr, 16 < p.2 ∧ p.2 < (2 ^ S - 1) / 5) :
     stb99SeedVal S lr l zi di ri = 0 ↔
       ∃ r, lr.find? (·.1 = l) = some (l, r) ∧ (∀ z ∈ zi, 1 ≤ z ∧ z ≤ 65256) ∧
         l ≤ 2 * di.headD 0 ∧ 8 * di.headD 0 ≤ 7 * l - r ∧ Spec.chain stb99DiMargin di ∧
@@ -269,21 +263,33 @@ theorem stb99SeedVal_iff (S : Nat) (lr : List (Nat × Nat)) (l : Nat) (zi di ri 
       · rw [if_neg hd]
         have hd1 : l' ≤ 2 * di.headD 0 ∧ 8 * di.headD 0 ≤ 7 * l' - r := by omega
         have hd0 : di.headD 0 < (2 ^ S - 1) / 5 := by omega
-        rw [← chainOkM_iff S stb99DiMargin di (by omega) hd0 (by omega) hdl]
+        rw [← chainOkM_iff S stb99DiMargin di (by omega) hd0 (by omega)]
         cases hcd : chainOkM S stb99DiMargin di
         · simp
         · simp only [Bool.not_true, Bool.false_eq_true, if_false, hd1, true_and]
           by_cases hr0 : ri.headD 0 = r
           · have hr1 : ri.headD 0 < (2 ^ S - 1) / 5 := by omega
-            rw [← chainOkM_iff S stb99RiMargin ri (by omega) hr1 (by omega) hrl, if_neg (not_not.2 hr0)]
-            cases hcr : chainOkM S stb99RiMargin ri <;> simp [hr0]
+            rw [← chainOkM_iff S stb99RiMargin ri (by omega) hr1 (by omega), if_neg (fun h => h hr0)]
+            cases hcr : chainOkM S stb99RiMargin ri
+            · simp
+            · simpa using hr0
           · rw [if_pos hr0]
             simp only [show (524 : Nat) = 0 ↔ False by decide, false_iff]
             exact fun h => hr0 h.1
 
+/-- the instance for 64-bit size_t -/
+theorem stb99SeedVal64_iff (lr : List (Nat × Nat)) (l : Nat) (zi di ri : List Nat)
+    (hRi : stb99RiMargin ≤ 16) (hl : 32 < l) (hl' : l < 2 ^ 60)
+    (hr : ∀ p ∈ lr, 16 < p.2 ∧ p.2 < 2 ^ 60) :
+    stb99SeedVal 64 lr l zi di ri = 0 ↔
+      ∃ r, lr.find? (·.1 = l) = some (l, r) ∧ (∀ z ∈ zi, 1 ≤ z ∧ z ≤ 65256) ∧
+        l ≤ 2 * di.headD 0 ∧ 8 * di.headD 0 ≤ 7 * l - r ∧ Spec.chain stb99DiMargin di ∧
+        ri.headD 0 = r ∧ Spec.chain stb99RiMargin ri :=
+  stb99SeedVal_iff 64 lr l zi di ri hRi hl (by omega) (fun p hp => by have := hr p hp; omega)
+
 /-- `pfokSeedVal` returns ERR_OK exactly for the seeds of the header -/
 theorem pfokSeedVal_iff (S : Nat) (lr : List (Nat × Nat)) (l : Nat) (zi li : List Nat)
-    (hl : 17 < l) (hlS : l - 1 < (2 ^ S - 1) / 5) (hll : li.getLastD 0 ≤ 32) :
+    (hl : 17 < l) (hlS : l - 1 < (2 ^ S - 1) / 5) :
     pfokSeedVal S lr l zi li = 0 ↔
       (∃ p ∈ lr, p.1 = l) ∧ (∀ z ∈ zi, 1 ≤ z ∧ z ≤ 65256) ∧ li.headD 0 = l - 1 ∧
         Spec.chain pfokLiMargin li := by
@@ -306,8 +312,10 @@ theorem pfokSeedVal_iff (S : Nat) (lr : List (Nat × Nat)) (l : Nat) (zi li : Li
     · simp only [Bool.not_true, Bool.false_eq_true, if_false, true_and]
       by_cases h0 : li.headD 0 = l - 1
       · have hl0 : li.headD 0 < (2 ^ S - 1) / 5 := by omega
-        rw [← chainOkM_iff S pfokLiMargin li (by omega) hl0 (by omega) hll, if_neg (not_not.2 h0)]
-        cases hc : chainOkM S pfokLiMargin li <;> simp [h0]
+        rw [← chainOkM_iff S pfokLiMargin li (by omega) hl0 (by omega), if_neg (fun h => h h0)]
+        cases hc : chainOkM S pfokLiMargin li
+        · simp
+        · simpa using h0
       · rw [if_pos h0]
         simp only [show (524 : Nat) = 0 ↔ False by decide, false_iff]
         exact fun h => h0 h.1
@@ -317,9 +325,11 @@ theorem pfokSeedVal_iff (S : Nat) (lr : List (Nat × Nat)) (l : Nat) (zi li : Li
 example : chainOkM 64 stb99DiMargin [320, 161, 81, 41, 21, 0, 0, 0, 0, 0, 0, 0, 0, 0, 0, 0, 0, 0] = true := by decide
 example : chainOkM 64 16 [143, 72, 37, 19, 0, 0, 0, 0, 0, 0] = true ∧
     chainOkM 64 0 [143, 72, 37, 19, 0, 0, 0, 0, 0, 0] = true := by decide
--- 5·161 + 16 = 821 < 1280 but 5·257 + 16 ≥ 4·320; a chain that does not end in {17 … 32}; a non-zero tail
+-- 5·161 + 16 = 821 < 1280 but 5·257 + 16 ≥ 4·320; a chain that does not end in {17 … 32}; a non-zero tail;
+-- a chain that reaches the end of the array with a last entry > 32
 example : chainOkM 64 16 [320, 257, 0] = false ∧ chainOkM 64 16 [320, 161, 0] = false ∧
-    chainOkM 64 16 [320, 161, 81, 41, 21, 0, 1] = false := by decide
+    chainOkM 64 16 [320, 161, 81, 41, 21, 0, 1] = false ∧ chainOkM 64 16 [100, 60] = false ∧
+    chainOkM 64 16 [100, 60, 32] = true := by decide
 -- the margin matters: 5·20 = 100 < 4·27 = 108 but 100 + 16 ≥ 108
 example : chainOkM 64 0 [27, 20, 0] = true ∧ chainOkM 64 16 [27, 20, 0] = false := by decide
 -- size_t wrap-around: 5·x wraps to a small value, the guard x ≥ SIZE_MAX/5 rejects
@@ -334,6 +344,6 @@ example : stb99SeedVal 64 [(638, 143), (766, 154)] 638 [1, 2, 3]
 example : pfokSeedVal 64 [(638, 130)] 638 [1, 2, 3]
     [637, 319, 160, 81, 41, 21, 0, 0, 0, 0, 0, 0, 0, 0, 0, 0, 0, 0, 0, 0] = 0 := by decide
 example : Spec.chain 16 [320, 161, 81, 41, 21, 0, 0, 0, 0, 0, 0, 0, 0, 0, 0, 0, 0, 0] :=
-  (chainOkM_iff 64 16 _ (by decide) (by decide) (by decide) (by decide)).1 (by decide)
+  (chainOkM_iff 64 16 _ (by decide) (by decide) (by decide)).1 (by decide)
 
 end Bee2V.C12
